@@ -59,6 +59,13 @@ PROGRAMS = {
                   ["enable_eom", "drive", 8.0, 0.0, -1.0], ["add_eom", "drive", 40, 0.0], ["delay", "drive", 20], ["add_eom", "drive", 16, 1.0]],
     "retarget": [["declare", "l", "ryd_loc", "q0"], ["add", "l", ["cp", 16, 1.0, 0.0, 0.0]], ["target", "l", "q1"],
                  ["add", "l", ["cp", 16, 1.0, 0.0, 0.0]], ["target", "l", ["q0", "q2"]], ["add", "l", ["cp", 16, 1.0, 0.0, 1.0]]],
+    # the program ends with a retarget (nothing after it re-checks the sequence length)
+    "retarget_tail": [["declare", "l", "ryd_loc", "q0"], ["add", "l", ["cp", 400, 1.0, 0.0, 0.0]], ["target", "l", "q1"]],
+    # the phase-drift correction of disable_eom_mode moves the reference that a second channel of the basis then uses
+    "eom_drift": [["declare", "g", "ryd_glob"], ["declare", "l", "ryd_loc", "q0"],
+                  ["enable_eom", "g", 2.0, 1.5, -1.0, {"correct_phase_drift": True}], ["add_eom", "g", 40, 0.0, None, {"correct_phase_drift": True}],
+                  ["delay", "g", 52], ["disable_eom", "g", {"correct_phase_drift": True}],
+                  ["add", "l", ["cp", 52, 1.0, 0.0, 0.25]]],
     "dmm": [["declare", "g", "ryd_glob"], ["config_dmap", {"q0": 1.0, "q1": 0.5, "q2": 0.0}, "dmm_0"],
             ["add", "g", ["cp", 100, 1.0, 0.0, 0.0]], ["add_dmm", "dmm_0", ["const", 52, -3.0]], ["delay", "dmm_0", 10],
             ["add_dmm", "dmm_0", ["ramp", 40, -2.0, -1.0], "wait-for-all"]],
@@ -103,7 +110,8 @@ def mk_device_b(inp, A, shape):
     B = VirtualDevice(
         name="virtB", dimensions=A.dimensions, rydberg_level=A.rydberg_level, max_atom_num=A.max_atom_num,
         max_radial_distance=A.max_radial_distance, min_atom_distance=A.min_atom_distance, supports_slm_mask=A.supports_slm_mask,
-        reusable_channels=shape.get("reusable", False), max_sequence_duration=None,
+        reusable_channels=shape.get("reusable", False),
+        max_sequence_duration=(inp.int("B.max_sequence_duration", 1, None) if shape.get("maxseq") else None),
         channel_objects=tuple(chans[c] for c in order), channel_ids=tuple(("B_" + c if shape.get("rename") else c) for c in order),
         dmm_objects=tuple(dmms.values()))
     return B, sym
@@ -176,6 +184,8 @@ def h_switch(shape):
                         terms.append(AND(d >= ch.min_duration, d % ch.clock_period == 0))
                     terms.append(sl.tf % ch.clock_period == 0)
             obs.append(("nonstrict:within_limits_of_new_device", AND(*terms)))
+        if B.max_sequence_duration is not None:
+            obs.append(("switch:within_max_sequence_duration", AND(*[cs.slots[-1].tf <= B.max_sequence_duration for cs in new._schedule.values()])))
             obs.append(("nonstrict:same_calls", len(new._calls) == len(seq._calls)))
         return obs
 
@@ -233,6 +243,13 @@ def kernels(tier):
                          [["ryd_glob", "eom.intermediate_detuning", 500 * TWO_PI]]):
                 ks.append(("switch", dict(program=prog, sym=[], concrete=conc, strict=True)))
         ks.append(("register", dict(program=prog)))
+    for strict in (True, False):
+        for p in ("fixed_retarget_t", "min_retarget_interval"):
+            ks.append(("switch", dict(program="retarget_tail", sym=[["ryd_loc", p]], maxseq=True, strict=strict)))
+        ks.append(("switch", dict(program="timing", sym=[["ryd_glob", "min_duration"]], maxseq=True, strict=strict)))
+    ks.append(("switch", dict(program="eom_drift", sym=[], concrete=[["ryd_loc", "min_retarget_interval", 100]], strict=True)))
+    ks.append(("switch", dict(program="eom_drift", sym=[["ryd_loc", "max_amp"]], strict=True)))
+    ks.append(("register", dict(program="eom_drift")))
     for conc in ([["ryd_glob", "eom.custom_buffer_time", 120]], [["ryd_glob", "eom.custom_buffer_time", 48]], [["ryd_glob", "eom.mod_bandwidth", 30.0]]):
         ks.append(("switch", dict(program="eom_tail", sym=[], concrete=conc, strict=True)))
     for param in (False, True):
